@@ -365,6 +365,7 @@ func main() {
 	exit := 0
 	var lines []string
 	var known []string
+	var unconfirmed []string
 	nviol := 0
 	os.MkdirAll(filepath.Join(verifDir, "replays"), 0o755)
 	for _, or := range oracles {
@@ -396,6 +397,32 @@ func main() {
 		b, _ := os.ReadFile(min)
 		os.WriteFile(rp, b, 0o644)
 		out, err := runCmd(scratch, env, worker, append([]string{"-replay", rp}, replayArgs...)...)
+		if (err != nil || !strings.HasPrefix(out, "REPRODUCED ")) && spec.Race {
+			// try the other recorded runs with the same pair of frames
+			for _, alt := range agg.Violations {
+				if alt.Oracle != or || alt.Seed == v.Seed {
+					continue
+				}
+				writeJSON(in, alt)
+				rp2 := filepath.Join(verifDir, "replays", fmt.Sprintf("%s-%s-%d.json", prop, name, alt.Seed))
+				b, _ := os.ReadFile(in)
+				os.WriteFile(rp2, b, 0o644)
+				out, err = runCmd(scratch, env, worker, append([]string{"-replay", rp2}, replayArgs...)...)
+				if err == nil && strings.HasPrefix(out, "REPRODUCED ") {
+					os.Remove(rp)
+					rp, v = rp2, alt
+					break
+				}
+				os.Remove(rp2)
+			}
+			if err != nil || !strings.HasPrefix(out, "REPRODUCED ") {
+				// the report is real (both stacks are in it) but the detector did not
+				// re-detect this pair on replay: not claimed as a violation
+				os.Remove(rp)
+				unconfirmed = append(unconfirmed, fmt.Sprintf("UNCONFIRMED-RACE-REPORT property=%s oracle=%s seed=%d (reported once in the batch, not re-detected in 40 replays)", prop, or, v.Seed))
+				continue
+			}
+		}
 		if err != nil || !strings.HasPrefix(out, "REPRODUCED ") {
 			infra("replay of the minimised violation %s did not reproduce exactly in a fresh process: %v\n%s", or, err, tailStr(out, 2000))
 		}
@@ -493,6 +520,12 @@ func main() {
 	os.MkdirAll(filepath.Join(verifDir, "evidence"), 0o755)
 	writeJSON(filepath.Join(verifDir, "evidence", prop+".json"), ev)
 
+	for _, l := range unconfirmed {
+		fmt.Println(l)
+	}
+	if len(unconfirmed) > 0 && nviol == 0 && len(known) == 0 {
+		infra("race reports were produced but none could be re-detected on replay: %v", unconfirmed)
+	}
 	for _, l := range known {
 		fmt.Println(l)
 	}
